@@ -5,6 +5,7 @@ import (
 	"fmt"
 	"io"
 	"math/rand"
+	"reflect"
 	"sort"
 	"strings"
 
@@ -109,6 +110,39 @@ type host struct {
 	fcalls  []callRec
 	ccalls  []callRec
 	pending chan error // channel of the raw handler that has not completed yet
+	// the argument values handed to raw command handlers, kept by the host like a handler that reads
+	// its arguments later would: whatever the runner or the storer does afterwards, they stay what they were
+	kept []keptCall
+}
+
+type keptCall struct {
+	name string
+	args []*variable.Value
+	vals []Val
+}
+
+func (h *host) keep(name string, args []*variable.Value) {
+	if len(h.kept) >= 64 {
+		h.kept = h.kept[1:]
+	}
+	h.kept = append(h.kept, keptCall{name, args, valsOf(args)})
+}
+
+// keptChanged re-reads the kept arguments; an invocation whose arguments are no longer what the handler
+// received is reported once, as a pseudo-call in the log of the current step.
+func (h *host) keptChanged() []callRec {
+	var out []callRec
+	rest := h.kept[:0]
+	for _, k := range h.kept {
+		now := valsOf(k.args)
+		if !reflect.DeepEqual(now, k.vals) {
+			out = append(out, callRec{"ARGUMENTS-OF-EARLIER-INVOCATION-CHANGED:" + k.name, now})
+			continue
+		}
+		rest = append(rest, k)
+	}
+	h.kept = rest
+	return out
 }
 
 type (
@@ -246,6 +280,7 @@ func (h *host) registerCmd(name, kind string) {
 	case "done":
 		dr.AddCommand(name, func(args []*variable.Value) <-chan error {
 			h.ccalls = append(h.ccalls, callRec{name, valsOf(args)})
+			h.keep(name, args)
 			ch := make(chan error, 1)
 			ch <- nil
 			return ch
@@ -253,6 +288,7 @@ func (h *host) registerCmd(name, kind string) {
 	case "fail":
 		dr.AddCommand(name, func(args []*variable.Value) <-chan error {
 			h.ccalls = append(h.ccalls, callRec{name, valsOf(args)})
+			h.keep(name, args)
 			ch := make(chan error, 1)
 			ch <- errCmd
 			return ch
@@ -260,6 +296,7 @@ func (h *host) registerCmd(name, kind string) {
 	case "pend":
 		dr.AddCommand(name, func(args []*variable.Value) <-chan error {
 			h.ccalls = append(h.ccalls, callRec{name, valsOf(args)})
+			h.keep(name, args)
 			ch := make(chan error, 1)
 			h.pending = ch
 			return ch
@@ -419,7 +456,7 @@ func (h *host) next(choice int) (obs stepObs) {
 		el, err := h.dr.Next(choice)
 		obs.Out = outOfElement(el, err)
 	}()
-	obs.Fcalls, obs.Ccalls = h.fcalls, h.ccalls
+	obs.Fcalls, obs.Ccalls = h.fcalls, append(h.ccalls, h.keptChanged()...)
 	if obs.Fcalls == nil {
 		obs.Fcalls = []callRec{}
 	}
